@@ -38,22 +38,28 @@ Proof. exact separate_gen. Qed.
 Print Assumptions separate_call_ok.
 
 (* T1.  The out-of-place call  e(x)  returns a NEW element holding the same value and
-   modifies nothing that existed before (trees without DiagonalOperator, see notes). *)
+   modifies nothing that existed before.  [diag_ok e v] is trivially true for trees without
+   DiagonalOperator ([no_diag_ok]); for a DiagonalOperator it says that each component operator
+   returns an element of its own space (same array lengths) on the input at hand -- the body
+   `out = range.zero(); out[i] += op(x[j])` adds the component result to zeros of the SPACE. *)
 Theorem out_of_place_call_ok : forall (e : op R) (h : heap R) (x : ref),
-  no_diag e -> wfop (length x) e -> below (next h) x ->
+  diag_ok e (get h x) -> wfop (length x) e -> below (next h) x ->
   get (snd (run_oop e x h)) (fst (run_oop e x h)) = pure e (get h x)
   /\ above (next h) (fst (run_oop e x h))
   /\ (forall i, (i < next h)%nat -> mem (snd (run_oop e x h)) i = mem h i).
-Proof. exact (oop_gen Rplus_comm Rmult_comm). Qed.
+Proof. exact (oop_gen Rplus_comm Rmult_comm R_add_zero). Qed.
 Print Assumptions out_of_place_call_ok.
 
 (* T1, literally the property text:  prox(x, out=x) leaves in x exactly the value that
    prox(x) would have returned. *)
 Theorem aliased_equals_out_of_place : forall (e : op R) (h : heap R) (x : ref),
-  no_diag e -> wfop (length x) e -> NoDup x -> below (next h) x ->
+  diag_ok e (get h x) -> wfop (length x) e -> NoDup x -> below (next h) x ->
   get (run_ip e x x h) x = get (snd (run_oop e x h)) (fst (run_oop e x h)).
-Proof. exact (aliased_eq_oop_gen Rplus_comm Rmult_comm). Qed.
+Proof. exact (aliased_eq_oop_gen Rplus_comm Rmult_comm R_add_zero). Qed.
 Print Assumptions aliased_equals_out_of_place.
+
+Theorem diag_free_trees_need_no_shape_condition : forall (e : op R), no_diag e -> forall v, diag_ok e v.
+Proof. exact no_diag_ok. Qed.
 
 (* The aliasing argument uses no law of arithmetic: T1 holds over ANY carrier with the Num
    operations and a square root -- in particular for the executed rational instance and for
@@ -71,23 +77,26 @@ Print Assumptions aliased_call_ok_any_carrier.
 Theorem prox_l1_aliased_ok : forall (lam : R) (sigma : sval R) (g : option (list (list R))) (h : heap R) (x : ref),
   NoDup x -> below (next h) x ->
   get (call_l1 lam sigma g x x h) x = pure_l1 lam sigma g (get h x).
-Proof. intros lam sigma g h x Hn Hb; exact (proj1 (aliased_gen (OLeaf (LL1 lam sigma g)) h x I Hn Hb)). Qed.
+Proof. exact l1_alias_R. Qed.
 Theorem prox_l1_l2_aliased_ok : forall (lam sigma : R) (g : option (list (list R))) (h : heap R) (x : ref),
   NoDup x -> below (next h) x ->
   get (call_l1l2 lam sigma g x x h) x = pure_l1l2 lam sigma g (get h x).
-Proof. intros lam sigma g h x Hn Hb; exact (proj1 (aliased_gen (OLeaf (LL1L2 lam sigma g)) h x I Hn Hb)). Qed.
+Proof. exact l1l2_alias_R. Qed.
 Theorem proximal_convex_conj_aliased_ok : forall (sigma inv_sigma : sval R) (prox : op R) (h : heap R) (x : ref),
   wfop (length x) prox -> NoDup x -> below (next h) x ->
   get (run_ip (o_convex_conj sigma inv_sigma prox) x x h) x
   = lin 1%R 1%R (scal (- 1)%R (mult_val sigma (pure prox (mult_val inv_sigma (get h x))))) (scal 1%R (get h x)).
-Proof.
-  intros sigma inv_sigma prox h x Hw Hn Hb.
-  exact (proj1 (aliased_gen (o_convex_conj sigma inv_sigma prox) h x (conj I (conj (conj I Hw) I)) Hn Hb)).
-Qed.
+Proof. exact cc_alias_R. Qed.
 
-(* non-vacuity: the hypotheses are met by a concrete heap and a tree of depth 4 *)
+(* non-vacuity: the hypotheses are met by a concrete heap and a tree of depth 4, and by a
+   DiagonalOperator of two different proximals *)
 Example hypotheses_satisfiable :
   let e : op R := o_convex_conj (Sc 2%R) (Sc (/ 2)%R) (OLeaf (LL1 1%R (Sc 1%R) (Some [[1%R; 2%R]]))) in
   let h : heap R := mkH (fun _ => [0%R; 0%R]) 1 in
-  wfop (length [0%nat]) e /\ NoDup [0%nat] /\ below (next h) [0%nat].
-Proof. cbn. repeat split; auto. constructor; [intros []|constructor]. repeat constructor. Qed.
+  wfop (length [0%nat]) e /\ NoDup [0%nat] /\ below (next h) [0%nat] /\ diag_ok e (get h [0%nat]).
+Proof. exact hyps_sat_R. Qed.
+Example diag_hypotheses_satisfiable :
+  let e : op R := ODiag 1 (OLeaf (LL1 1%R (Sc 1%R) None)) (OLeaf (LBox (BSc 0%R) BNone)) in
+  let v : list (list R) := [[1%R; 2%R]; [3%R]] in
+  wfop 2 e /\ diag_ok e v.
+Proof. exact diag_sat_R. Qed.
